@@ -44,6 +44,7 @@ type H struct {
 	maxRatio  float64 // alloc / allowance
 	maxCPU    float64 // CPU time / allowance
 	maxCPUOf  string
+	maxCPUPlain float64 // CPU time / allowance over the cases judged by the plain general allowance
 	aborted   bool
 	known     int
 
@@ -304,6 +305,11 @@ func (h *H) judge(c *tcase, big bool, o outcome) (outcome, bool) {
 			h.maxCPU, h.maxCPUOf = r, c.Note
 			if c.Note == "" {
 				h.maxCPUOf = strings.Join(c.Names, " ")
+			}
+		}
+		if plain := !c.Tight && c.Work == 0 && !strings.Contains(strings.Join(c.Names, " "), "JBIG2Decode"); plain {
+			if r := float64(o.CPUNS) / float64(allowedNS(in, o.N)); r > h.maxCPUPlain {
+				h.maxCPUPlain = r
 			}
 		}
 	}
@@ -1488,6 +1494,7 @@ func main() {
 			}
 			c := h.one("JBIG2Decode", parm{Kind: "null"}, jbig2ManyRegions(sh[0], sh[1], sh[2], typ, 8, 8), "jbig2 many large regions")
 			c.Live = true
+			c.Work = admittedJBIG2(int64(len(c.Body())), int64(sh[0])*int64(sh[1])*int64(sh[2]))
 			h.chainCase(c)
 		}
 	}
@@ -1583,6 +1590,7 @@ func main() {
 				"max_alloc_over_allowed":  h.maxRatio,
 				"max_cpu_over_allowed":    h.maxCPU,
 				"max_cpu_over_allowed_by": h.maxCPUOf,
+				"max_cpu_over_allowed_plain_allowance": h.maxCPUPlain,
 				"watchdog":                "CPU time (user+system of the decoding process), 5 s + 50 us per input or output byte; wall-clock only as a hang guard (90 s without output and without CPU use); a suspected violation is re-run three times in fresh processes, one after the other, each judged by its own CPU time",
 				"alloc_allowance":         "StreamBudget(rawLen) + 4*|out| + 512 KiB + 128 KiB*stages, against the TotalAlloc delta",
 				"goroutine_grace":         "2 s after Close",
@@ -1592,7 +1600,8 @@ func main() {
 				"max_live_heap_growth":    h.maxLive,
 				"live_heap_allowance":     "StreamBudget(rawLen) + 1 MiB, against HeapAlloc after forced collections sampled every 2 ms during the decode (multi-segment JBIG2 cases)",
 				"tight_watchdog":          "0.75 s + 5 us per byte of CPU time for bodies built to cost time whose decoding is linear with a small constant (CCITT code storms, JBIG2 region storms; the unchanged tree needs < 0.1 s); they run in a process of their own",
-				"progressive_scan_scripts": "process of their own, general allowance (5 s + 50 us per byte): the decoder's own bound is 64 walks over up to 32768 + 4*rawLen coefficient blocks, about 0.3 s + 33 us per input byte; the scripts need 0.3 s to 1.1 s on the unchanged tree",
+				"progressive_scan_scripts": "process of their own, general allowance (5 s + 50 us per byte) + work term: the decoder's own bound is 64 walks over up to 32768 + 4*rawLen coefficient blocks, about 0.3 s + 33 us per input byte; the scripts need 0.3 s to 1.5 s on the unchanged tree",
+				"work_term":                "bodies built to drive a decoder to its documented work cap (progressive JPEG scan scripts: 64 walks over the frame's blocks; JBIG2 region storms: min(declared pixels, 64 Mi + 4096 per input byte, 512 Mi) pixel operations) get 500 ns per admitted operation on top of the general allowance (the unchanged tree needs 35 to 130 ns per operation); the constants are written out in the harness, not read from the code under test; every other chain with a JBIG2Decode stage gets the same term for what the cap admits for the bytes that stage can see (the raw length if it comes first, else the hard cap of 512 Mi)",
 				"failing_cases_by_signature (12 of each are recorded)": h.perSig,
 			},
 		})
